@@ -486,6 +486,44 @@ fn build_other(kind: &str, rng: &mut Rng, sim: &mut Sim, ck: &mut Checker, v6: b
             }
             ck.sample_contacts = true;
         }
+        // C11, crowded table: 30..40 always-answering contacts, at most 7 per bucket, of which 12 keep
+        // themselves good by querying the node every few minutes (so no periodic re-bootstrap helps
+        // the refresh); the others turn questionable almost together 15 minutes after the bootstrap
+        "crowd" => {
+            let per = if rng.chance(1, 2) { 7 } else { rng.range(5, 7) as usize };
+            let classes = 6usize;
+            let n = per * classes;
+            let dur = rng.range(1100, 1500) as u128 * S;
+            let me = rng.bytes(20);
+            for i in 0..n {
+                let mut id = rng.bytes(20);
+                let c = i % classes;
+                for b in 0..c { let m = 0x80u8 >> b; id[0] = (id[0] & !m) | (me[0] & m); }
+                let m = 0x80u8 >> c; id[0] = (id[0] & !m) | (!me[0] & m);
+                sim.peers.push(SimPeer { id, addr: sim_addr(v6, i, 6881), policy: Policy::Good, store: HashMap::new(), token: vec![b't', i as u8], last_answer: None });
+            }
+            let a = real_addr(v6, 0);
+            sim.reals.push((0, me.clone(), a));
+            let nodes: Vec<String> = sim.peers.iter().take(8).map(|p| addr_str(&p.addr)).collect();
+            sim.end = t0 + dur;
+            sim.lat_ms = (5, 120);
+            sim.schedule(t0, format!("nnew 0 {} addr={} ro=0 port=none routers=- nodes={}", hex(&me), addr_str(&a), dash(&nodes)));
+            // the talkers: a ping every 4 minutes from 12 of the contacts
+            for (j, p) in sim.peers.iter().enumerate().filter(|(j, _)| j % 3 == 0).take(12).map(|(j, p)| (j, (p.id.clone(), p.addr))).collect::<Vec<_>>() {
+                let mut t = t0 + 60 * S + j as u128 * 977 * MS;
+                while t < sim.end {
+                    let tid = rng.bytes(2);
+                    sim.schedule(t, format!("dg 0 x{} {} q ping id={}", hex(&tid), addr_str(&p.1), hex(&p.0)));
+                    t += 240 * S;
+                }
+            }
+            // one search: its end-game queries every node it heard of, so that all of them answer — and
+            // 15 minutes later turn questionable — within a second or two
+            if rng.chance(5, 6) { sim.schedule(t0 + rng.range(60, 200) as u128 * S, format!("api 0 search {} 0", hex(&rng.bytes(20)))); }
+            let mut t = t0 + 3 * S + 1 * MS;
+            while t < sim.end { sim.schedule(t, "api 0 contacts".into()); t += 5 * S; }
+            ck.sample_contacts = true;
+        }
         // C01: 2..9 serving nodes that all know each other; announce, then search from elsewhere
         "e2e" => {
             let r = if thorough { rng.range(2, 9) } else { rng.range(2, 5) } as usize;
